@@ -325,42 +325,61 @@ Definition handle_stale_while_revalidate (q : request) (stored : stored_entry) (
   Spawn (background_revalidate q2 stored url_key f cc_req)
         (Ret (OResp (response_of (entry_with_hdr stored (apply_status STALE h1))))).
 
+(* the decision taken on a cache hit, as a pure function of the request, the stored entry and the clock *)
+Inductive hit_decision :=
+| DServe          (* serveFromCache *)
+| DServeSWR       (* handleStaleWhileRevalidate *)
+| D504            (* only-if-cached but validation is mandatory *)
+| DRevalidate (must : bool).   (* goto revalidate; [must]: no stale fallback *)
+
+Definition hit_qualified (stored : stored_entry) : option (list bytes) :=
+  match resp_no_cache (parse_cc (e_hdr stored)) with Some raw => no_cache_fields raw | None => None end.
+
+Definition hit_must_validate (q : request) (stored : stored_entry) (f : freshness) : bool :=
+  let cc_req := parse_cc (q_hdr q) in
+  let cc_resp := parse_cc (e_hdr stored) in
+  let has_nc := match resp_no_cache cc_resp with Some _ => true | None => false end in
+  let is_qualified := match hit_qualified stored with Some _ => true | None => false end in
+  (has_nc && negb is_qualified) ||
+  ((f_stale f || f_expired f) && resp_must_revalidate cc_resp) ||
+  req_no_cache cc_req || f_req_max_age_exceeded f.
+
+Definition decide_hit (q : request) (stored : stored_entry) (now : Z) : hit_decision :=
+  let cc_req := parse_cc (q_hdr q) in
+  let cc_resp := parse_cc (e_hdr stored) in
+  let f := calculate_freshness stored cc_req cc_resp now in
+  if hit_must_validate q stored f then
+    (if req_only_if_cached cc_req then D504 else DRevalidate true)
+  else if negb (f_stale f) || req_only_if_cached cc_req then DServe
+  else
+    match resp_swr cc_resp with
+    | Some swr =>
+        let age := dur_add (f_age f) (time_sub now (f_age_ts f)) in
+        let stale_for := wrap64 (age - f_life f) in
+        if (0 <=? stale_for) && (stale_for <? swr) then DServeSWR else DRevalidate false
+    | None => DRevalidate false
+    end.
+
 Definition handle_cache_hit (q : request) (stored : stored_entry) (url_key : bytes)
            (refs : list (option ref)) (ref_index : Z) : prog outcome :=
   let cc_req := parse_cc (q_hdr q) in
   let cc_resp := parse_cc (e_hdr stored) in
   Now (fun now =>
     let f := calculate_freshness stored cc_req cc_resp now in
-    let nc := resp_no_cache cc_resp in
-    let qualified := match nc with Some raw => no_cache_fields raw | None => None end in
-    let has_nc := match nc with Some _ => true | None => false end in
-    let is_qualified := match qualified with Some _ => true | None => false end in
-    let must_validate :=
-      (has_nc && negb is_qualified) ||
-      ((f_stale f || f_expired f) && resp_must_revalidate cc_resp) ||
-      req_no_cache cc_req || f_req_max_age_exceeded f in
-    let revalidate : prog outcome :=
-      let q' := with_conditional_headers q (e_hdr stored) in
-      round_trip_timed q' (fun rep start stop =>
-        handle_validation_response
-          {| rc_url_key := url_key; rc_start := start; rc_end := stop; rc_cc_req := cc_req;
-             rc_stored := stored; rc_fresh := f; rc_refs := refs; rc_ref_index := ref_index;
-             rc_no_stale := must_validate |}
-          q' rep) in
-    if must_validate then
-      (if req_only_if_cached cc_req then Ret (OResp response_504) else revalidate)
-    else if negb (f_stale f) || req_only_if_cached cc_req then
-      Ret (serve_from_cache stored f now qualified)
-    else
-      match resp_swr cc_resp with
-      | Some swr =>
-          let age := dur_add (f_age f) (time_sub now (f_age_ts f)) in
-          let stale_for := wrap64 (age - f_life f) in
-          if (0 <=? stale_for) && (stale_for <? swr)
-          then handle_stale_while_revalidate q stored url_key f cc_req now qualified
-          else revalidate
-      | None => revalidate
-      end).
+    let qualified := hit_qualified stored in
+    match decide_hit q stored now with
+    | DServe => Ret (serve_from_cache stored f now qualified)
+    | DServeSWR => handle_stale_while_revalidate q stored url_key f cc_req now qualified
+    | D504 => Ret (OResp response_504)
+    | DRevalidate must =>
+        let q' := with_conditional_headers q (e_hdr stored) in
+        round_trip_timed q' (fun rep start stop =>
+          handle_validation_response
+            {| rc_url_key := url_key; rc_start := start; rc_end := stop; rc_cc_req := cc_req;
+               rc_stored := stored; rc_fresh := f; rc_refs := refs; rc_ref_index := ref_index;
+               rc_no_stale := must |}
+            q' rep)
+    end).
 
 Definition handle_unrecognized_method (q : request) (url_key : bytes) : prog outcome :=
   Origin q (fun rep =>
